@@ -66,6 +66,12 @@ def classify(p):
     const = bool(re.search(r"\bconst\b[^*]*\*", p))
     if stars == "*" and base in ELEM:
         return ("src" if const else "dest"), base, name
+    if stars == "*" and base == "struct tm" and const: return "tm", base, name
+    if stars == "*" and base == "time_t" and const: return "tt", base, name
+    if stars == "*" and base == "mbstate_t": return "mbs", base, name
+    if stars == "**" and base in ("char", "wchar_t") and const: return "srcpp", base, name
+    if stars == "**" and base == "void": return "outp", base, name
+    if stars == "" and base in ("bool", "wcsnorm_mode_t"): return "flag", base, name
     if stars == "*" and base in ("rsize_t", "size_t", "int", "errno_t", "unsigned", "long"):
         return "out", base, name
     if stars == "**" and base in ("char", "wchar_t"):
@@ -90,6 +96,7 @@ def gen():
             rt, ps = protos[name]; plist = split_params(ps); kinds = [classify(p) for p in plist]
             if len(plist) == len(mparams) and all(k[0] == "int" for k in kinds): items.append((name, None, rt, kinds, (mparams, mparams))); continue
         if chk and chk not in exp: skipped.append(name + "(not built)"); continue
+        if name in ("sprintf_s", "snprintf_s", "swprintf_s", "snwprintf_s") and chk in exp: continue      # variadic: called with a fixed argument list in emit_c
         if not chk or chk not in protos or "..." in mparams or "__VA_ARGS__" in body: skipped.append(name); continue
         rt, ps = protos[chk]; plist = split_params(ps)
         # the arguments of the expansion: which parameter of the function does each macro parameter become
@@ -122,12 +129,15 @@ PRE = r'''/* generated by engine/hdrclient.py from the public headers of the wor
 #include <string.h>
 #include <wchar.h>
 #include <stdint.h>
+#include <time.h>
+#include <stdbool.h>
 #include "safe_lib.h"
 #include "safe_str_lib.h"
 #include "safe_mem_lib.h"
 static int ev[12];
 static void hnd(const char *restrict m, void *restrict p, errno_t e) { (void)m; (void)p; (void)e; }
 static volatile size_t V0;
+static const struct tm tmv = { .tm_mday = 1, .tm_year = 100 }; static const time_t ttv = 1000000000;
 #define RESET() memset(ev, 0, sizeof ev)
 #define COUNTS(name, n) do { for (int i_ = 0; i_ < (n); i_++) if (ev[i_] != 1) printf("COUNT %s %d %d\n", name, i_, ev[i_]); printf("A %s\n", name); } while (0)
 #define BOSU ((size_t)-1)
@@ -152,6 +162,11 @@ def value(kind, ct, pname, idx, first_ptr_seen):
         if idx <= 1 or "dmax" in pname: return "(rsize_t)16"
         return "(rsize_t)2"
     if kind == "int": return "97"
+    if kind == "tm": return "&tmv"
+    if kind == "tt": return "&ttv"
+    if kind == "mbs": return f"&mb{idx}"
+    if kind == "srcpp": return f"&sp{idx}"
+    if kind == "flag": return "0"
     if kind == "out": return f"&o{idx}"
     if kind == "outp": return f"&op{idx}"
     return "0"
@@ -171,6 +186,8 @@ def emit_c(items, plain):
         for i, (k, ct, pn) in enumerate(kinds):
             if k == "out": decl.append(f"{ct} o{i} = ({ct})16;")
             if k == "outp": decl.append(f"{ct} *op{i} = 0;")
+            if k == "mbs": decl.append(f"mbstate_t mb{i}; memset(&mb{i}, 0, sizeof mb{i});")
+            if k == "srcpp": decl.append(f"const {ct} *sp{i} = {SRCV[ct]};")
             args.append(f"(ev[{i}]++, {value(k, ct, pn, i, False)})")
         L.append(f"    {{ /* {name} */ {' '.join(decl)} fill(); RESET(); long r_ = {retexpr(rt, name + '(' + ', '.join(args) + ')')}; (void)r_; COUNTS(\"{name}\", {len(kinds)}); }}")
         # once more with the pointer operands passed plainly, so that the compiler knows the sizes of the objects (the expansion may depend on that)
@@ -178,6 +195,9 @@ def emit_c(items, plain):
             args2 = [value(k, ct, pn, i, False) if k in ("dest", "src") else f"(ev[{i}]++, {value(k, ct, pn, i, False)})" for i, (k, ct, pn) in enumerate(kinds)]
             fix = " ".join(f"ev[{i}] = 1;" for i, (k, _, _) in enumerate(kinds) if k in ("dest", "src"))
             L.append(f"    {{ /* {name}, object sizes known */ {' '.join(decl)} fill(); RESET(); {fix} long r_ = {retexpr(rt, name + '(' + ', '.join(args2) + ')')}; (void)r_; COUNTS(\"{name}\", {len(kinds)}); }}")
+    for name, wide in (("sprintf_s", 0), ("snprintf_s", 0), ("swprintf_s", 1), ("snwprintf_s", 1)):      # the variadic macros: dest, dmax, format and one argument
+        L.append(f"    {{ /* {name} */ fill(); RESET(); long r_ = (long)({name}((ev[0]++, {'dw' if wide else 'dc'}), (ev[1]++, (rsize_t)16), (ev[2]++, {'L' if wide else ''}\"n=%d\"), (ev[3]++, 7))); (void)r_; COUNTS(\"{name}\", 4); }}")
+        L.append(f"    {{ /* {name}, object sizes known */ fill(); RESET(); ev[0] = 1; long r_ = (long)({name}({'dw' if wide else 'dc'}, (ev[1]++, (rsize_t)16), (ev[2]++, {'L' if wide else ''}\"n=%d\"), (ev[3]++, 7))); (void)r_; COUNTS(\"{name}\", 4); }}")
     for name, rt, kinds in plain:
         args = [f"(ev[{i}]++, 97)" for i in range(len(kinds))]
         L.append(f"    {{ /* {name} */ RESET(); long r_ = (long)({name}({', '.join(args)})); (void)r_; COUNTS(\"{name}\", {len(kinds)}); }}")
